@@ -590,7 +590,25 @@ func TestVerifC19(t *testing.T) {
 	// Part A: full universe.
 	c.block("A1", both, full, 3, all, 0, &idx)
 	note("api and ipItemsMake: all tuples of <=3 of the 56 in-family ranges")
+	// Multi-step merges (a slot that already absorbed a neighbour absorbs a wider, lower range
+	// with live items and placeholders in between) need >=4 ranges on a line of >=5 points.
+	v6line := []int{0, 1, 2, 3, 4, 5, 6, 15} // ::..::5, ::1:0, ffff::
+	v4line := []int{7, 8, 9, 10, 11, 12, 13, 14}
+	if !r.Thorough() { // (thorough: contained in A3 below)
+		c.sequences("A5v6", []string{"api"}, c19ranges(v6line), 4, &idx)
+		c.sequences("A5v4", []string{"api"}, c19ranges(v4line), 4, &idx)
+		note("api: all tuples of exactly 4 of the 28 ranges of the 8-point v6 line, and of the 8-point v4 line")
+	}
+	c.sequences("A6v6", []string{"trust"}, c19ranges(v6line[1:7]), 4, &idx)
+	c.sequences("A6v4", []string{"trust"}, c19ranges(v4line[:6]), 4, &idx)
+	note("ipItemsMake: all tuples of exactly 4 of the 15 ranges of a 6-point line (::1..::1:0; 0.0.0.0..0.0.0.5)")
 	if r.Thorough() {
+		c.sequences("A7v6", both, c19ranges(v6line[:7]), 5, &idx)
+		c.sequences("A7v4", both, c19ranges(v4line[:7]), 5, &idx)
+		note("api and ipItemsMake: all tuples of exactly 5 of the 21 ranges of a 7-point line (::..::1:0; 0.0.0.0..0.0.1.0)")
+		c.sequences("A8v6", []string{"api"}, c19ranges(v6line[1:6]), 6, &idx)
+		c.sequences("A8v4", []string{"api"}, c19ranges(v4line[:5]), 6, &idx)
+		note("api: all tuples of exactly 6 of the 10 ranges of a 5-point line (::1..::5; 0.0.0.0..0.0.0.4)")
 		c.sequences("A3", []string{"api"}, full, 4, &idx)
 		note("api: all tuples of exactly 4 of the 56 in-family ranges")
 		c.block("A2", both, full, 3, all, 1, &idx)
